@@ -27,6 +27,6 @@ def keep(c):
 def finding_key(c, r):
     return None
 
-LEVEL_TEXT = "placeholder"
-LEVEL_NOTE = "placeholder"
+LEVEL_TEXT = "Theorems (Props/C01.v) for every database, query, option record, idf function, fuzzy-matcher outcome and NLP analysis on Model/Engine.v: the answer of SearchUniversal has no entry twice, at most the limit in force (default 10), only entries of the database that pass the filters; the index/NLP path is ordered by non-increasing score (binary64 comparison), the typo fallback by raw match quality. The model is compared bit for bit with the real engine on every generated case (7 runs per case), and the property's predicate (limit, membership, duplicates, finite non-negative scores, order) is evaluated in Coq on the real answers of SearchUniversal, the cached layer, the legacy pipeline search and Search."
+LEVEL_NOTE = "Trusted: Coq kernel + vm_compute; FloatAxioms (ltb_spec etc., standard library) for the ordering theorem; oracles from the real code per case (math.Log idf, NLP multipliers, TF-IDF ranking, raw fuzzy scores). 'finite, non-negative' is checked per case on model and code, not proved (no float range laws); the legacy pipeline search and the CLI recovery search are covered by the predicate only (the latter in C17)."
 TECHNIQUE = "Coq proof over the engine model + differential correspondence (vm_compute, bit-exact scores)"
